@@ -245,7 +245,7 @@ pub fn exec_case(case: &Value, want: &BTreeSet<String>) -> RunOutcome {
                 ro.panic = Some(p);
             }
         }
-        ro.digest = digest_str(&format!("{:?}", ro.violations.iter().map(|v| &v.check).collect::<Vec<_>>()));
+        ro.digest = digest_str(&instance.to_string());
         if want.len() == 1 {
             return ro;
         }
